@@ -71,9 +71,10 @@ def r1_write_set(repo):
     ok = False
     if len(by) == 4:
         v, r = by["var_type"], by["ret_type"]
-        iff = v._parent
-        ok = isinstance(iff, ast.If) and v in iff.body and r in iff.orelse and \
-            "isinstance" in src(iff.test) and "VariableDeclaration" in src(iff.test)
+        # by path condition: var_type is written where the declaration is a VariableDeclaration, ret_type where it is not
+        def vd(n_):
+            return [p_ for t_, p_ in flat_guards(n_) if "isinstance" in src(t_) and "VariableDeclaration" in src(t_)]
+        ok = vd(v) == [True] and vd(r) == [False]
     obs.append(Ob("C04-R1", "var_type-xor-ret_type", _w(f), ok,
                   "var_type and ret_type must be the two alternatives of one if/else on the declaration's class"))
     ok = False
@@ -227,8 +228,9 @@ def r4_flags(repo):
     obs.append(Ob("C04-R4", "flags-imply-a-store", _w(f), ok, msg))
     # early returns precede all stores and return the node untouched
     rets = [n for n in iter_own_nodes(fn) if isinstance(n, ast.Return)]
-    bad = [r for r in rets if r is not fn.body[-1] and
-           any(g.path_exists_avoiding(sn, g.node(r), []) for sn in store_nodes)]
+    # "early" = a return that is not the end of the mutating path: one that cannot be reached from a store
+    final = [r for r in rets if any(g.path_exists_avoiding(sn, g.node(r), []) for sn in store_nodes)]
+    bad = final[1:] if len(final) > 1 else []
     vals = [src(r.value) for r in rets if not (isinstance(r.value, ast.Call))]
     ok = not bad and all(v == f.params[1] for v in vals)
     obs.append(Ob("C04-R4", "early-returns-precede-every-store", _w(f), ok,
